@@ -69,8 +69,14 @@ fn check_case(case: &Case, st: &mut Stats) -> Result<(), String> {
         cells.push(c);
     }
     if !case.related.is_empty() && !cells.is_empty() && cells[0].res >= 2 {
-        // rebuild the list from the first cell's sibling group
-        let first = cells[0];
+        // rebuild the list from the first cell's sibling group; a third of the time the first cell is the
+        // last (or first) cell of its quintant's curve
+        let mut first = cells[0];
+        match case.related[0] % 6 {
+            0 => first.pos = (1u64 << (2 * (first.res - 1))) - 1,
+            1 => first.pos = 0,
+            _ => {}
+        }
         let parent = tree::parent(&first).unwrap();
         let sibs = tree::children(&parent);
         let mut out = Vec::new();
@@ -79,6 +85,15 @@ fn check_case(case: &Case, st: &mut Stats) -> Result<(), String> {
                 0..=3 => sibs[(*r as usize) % sibs.len()],
                 4 => sibs[i % sibs.len()],
                 5 => first,
+                7 if i > 0 => {
+                    // the curve neighbour of the previous item: next position, carrying into the next
+                    // quintant / face at the end of a quintant (or the previous one, for odd i)
+                    let prev = out.last().copied().unwrap_or(first);
+                    let id = codec::encode(&prev);
+                    let stride = 1u64 << (58 - 2 * (prev.res - 1));
+                    let nid = if i % 2 == 1 { id.wrapping_add(stride) } else { id.wrapping_sub(stride) };
+                    codec::decode(nid).filter(|c| c.res == prev.res).unwrap_or(first)
+                }
                 6 => {
                     // a cousin: same position in the next sibling group
                     let mut x = sibs[i % sibs.len()];
